@@ -1,5 +1,6 @@
 """C07 - SO(3) representation conversions preserve the rotation and return valid parameters (DESIGN 4, C07)."""
 import ast
+import math
 
 from .common import *
 from .liecommon import *
@@ -30,6 +31,19 @@ def pole_band(c, theta=None):
     if f is not None and f.kind == "fabs" and len(lo.t) == 1 and hi.const_value() is not None:
         arg = f.key[0]
         if not any(x.kind == "sym" and x.key[0] == "pi" for x in arg.atoms()):
+            # form C: fabs(s -+ 1) < w, a test on the sine of the pitch: half width acos(1 - w)
+            wv = float(hi.const_value())
+            for sgn in (1, -1):
+                for flip in (1, -1):
+                    sq = arg.scale(flip) + Poly.const(sgn)          # arg = flip * (s - sgn)
+                    if sq.const_value() is None and () not in sq.t and 0 < wv < 1:
+                        if theta is None:
+                            return 0, math.acos(1 - wv), sq
+                        st = cm.un("sin", theta)
+                        if sq == st:
+                            return sgn, math.acos(1 - wv), sq
+                        if sq == -st:
+                            return -sgn, math.acos(1 - wv), sq
             return None
         for sgn in (1, -1):
             for flip in (1, -1):
@@ -392,8 +406,15 @@ def check_euler_band(w, rep, p, RULE, W):
     theta = assign_ites(p, {c: False for c in conds}).cells[1][0]       # pitch on the regular branch
     bands = [b for b in (pole_band(c, theta) for c in conds) if b is not None]
     signs = sorted(b[0] for b in bands)
-    rep.check(RULE, "SO3EulerB321.from_Matrix tests both gimbal poles (+pi/2 and -pi/2)", signs == [-1, 1],
-              "gimbal handling is not symmetric: recognised pole tests for %s" % (signs or "no pole"), where=W, fact={"poles": signs})
+    inst = "SO3EulerB321.from_Matrix tests both gimbal poles (+pi/2 and -pi/2)"
+    n_sel = len(ite_conditions(p))
+    if signs == [-1, 1]:
+        rep.ok(RULE, inst, fact={"poles": signs})
+    elif n_sel > len(bands):
+        # there are selections whose test is in none of the recognised forms: not a verdict
+        rep.incomplete(RULE, inst, "%d selection(s) of from_Matrix are not recognised as a gimbal test (forms: |theta -+ pi/2| < w, +-s > k, |s -+ 1| < w)" % (n_sel - len(bands)), where=W)
+    else:
+        rep.fail(RULE, inst, "gimbal handling is not symmetric: pole tests for %s only" % (signs or "no pole"), where=W, fact={"poles": signs})
     for sgn, width, _ in bands:
         rep.check(RULE, "gimbal band at %spi/2 has half width <= 1e-3 rad" % ("+" if sgn > 0 else "-"), 0 < width <= 1e-3 * (1 + 1e-9),
                   "the degenerate (roll := 0) branch is taken within %.4g rad of the pole, the documented band is 1e-3 rad: conversions are wrong for pitch in between" % width, where=W,
